@@ -339,10 +339,11 @@ r_buf_rpos_check(r_buf_p r_buf, r_buf_rpos_p rpos, size_t *drop_size_ret) {
 	//    r_buf->round_num, r_buf->iov_index, rpos->round_num, rpos->iov_index);
 
 	/* Calc dropped size. */
-	if (((size_t)(rpos->round_num + 1)) >= r_buf->round_num) { /* rpos > wpos */
+	drop_size = (size_t)(r_buf->round_num - rpos->round_num); /* Rounds behind, modulo wrap. */
+	if (drop_size > (SIZE_MAX / 2)) { /* rpos > wpos */
 		drop_size = 0;
 	} else { /* rpos << wpos: wery slow reader. */
-		drop_size = (r_buf->size * (r_buf->round_num - rpos->round_num));
+		drop_size *= r_buf->size;
 	}
 	rpos->iov_off = 0;
 	rpos->iov_index = (r_buf->iov_index + 1);
